@@ -33,6 +33,15 @@ closed range (the library asks `rng_next_in_closed_range`) -/
 def addSaltInRange (e : Env) (lo hi : Nat) (pick : Nat) (draw : Nat → Bytes) : Res Env :=
   if lo < 8 then .err "dep:Salt_length_is_too_short" else addSaltWithLen h e pick draw
 
+/-- the closed range `Salt::new_for_size_using(size)` asks for; `c5` and `c25` are what the
+library's `(size as f64 * 0.05).ceil()` and `(size as f64 * 0.25).ceil()` evaluate to -/
+def saltRange (c5 c25 : Nat) : Nat × Nat := (max 8 c5, max (max 8 c5 + 8) c25)
+
+/-- `add_salt_using(rng)`: the range for the size of the receiver's tagged encoding, a length
+`pick` chosen in it by the RNG, `draw pick` the bytes -/
+def addSaltProportional (e : Env) (c5 c25 pick : Nat) (draw : Nat → Bytes) : Res Env :=
+  addSaltInRange h e (saltRange c5 c25).1 (saltRange c5 c25).2 pick draw
+
 /-- `add_assertion_envelope_salted(assertion, salted)`; `salt = some bytes` when salted -/
 def addAssertionEnvelopeSalted (e a : Env) (salt : Option Bytes) : Res Env :=
   if !a.slotOk then .err "InvalidFormat" else
